@@ -256,3 +256,5 @@ def run(ck, F):
     import c07
     ck.run_rule(c07.r07_3)
     ck.run_rule(c05.r05_1)
+    import c03
+    ck.run_rule(c03.r03_4b)      # a request waiting for a local port must be woken by every release
